@@ -556,7 +556,9 @@ class Unit:
                 txt += '\n    requires %s' % req.strip().rstrip(',') + ','
             if ens:
                 txt += '\n    ensures %s' % ens.strip().rstrip(',') + ','
-            txt += '\n{ %s }' % (getattr(o, 'body', None) or getattr(o, 'original', o.fields['expr']))
+            # `tail:` (multi-statement outlines): text appended after the outlined statements so that the helper returns a value
+            tail = o.fields.get('tail')
+            txt += '\n{ %s%s }' % ((getattr(o, 'body', None) or getattr(o, 'original', o.fields['expr'])), ('\n' + tail.strip()) if tail else '')
             out.append(txt)
         return '\n'.join(out)
 
@@ -997,7 +999,7 @@ class Unit:
                     prm = prm.strip()
                     if prm:
                         argnames.append(re.sub(r'^mut\s+', '', prm.split(':')[0].strip()))
-                ens = ''.join('\n        /*@HCL %s|call_ensures|%s|%d*/ (%s),' % (key, cl.name, cl.text.strip().count('\n'), subst2(cl.text.strip().rstrip(','))) for cl in c.call_ensures)
+                ens = ''.join('\n        /*@HCL %s|call_ensures|%s|%d*/ (%s),' % (key, cl.name, cl.text.strip().count('\n'), subst2(cl.text.strip().rstrip(','))) for cl in (c.call_ensures + c.hook_ensures))
                 self.hookcalls.append('#[verifier::external_body]\npub fn call_%s%s(%s)%s%s\n    ensures%s\n{ <C>::%s(%s) }'
                                       % (f.name, gen3, subst2(f.params), subst2(ret), subst2(where), ens, f.name, ', '.join(argnames)))
                 self.rule('E7.hook_call_wrapper')
